@@ -209,3 +209,127 @@ Proof.
     + intros Hin. apply (Hfresh (S next) ltac:(lia)). unfold cfg_cids in *. by rewrite Hc.
 Qed.
 End split_rules.
+
+(* ------------------------------------------------------------------ the channels of the abstraction, all programs *)
+Record SplitCfg (c : config) : Prop := {
+  sc_procs : forall q pp, procs c !! q = Some pp -> (exists n, pr_provs pp = [n]) \/ (exists n1 n2, pr_provs pp = [n1; n2]);
+  sc_msgs : forall k st m, chans c !! k = Some st -> ch_buf st = Some m -> m_rule m = RFWD ->
+              (exists n, m_provs m = [n]) \/ (exists n1 n2, m_provs m = [n1; n2])
+}.
+
+Lemma form_cids_subst_list fns : forall ns b k,
+  k ∈ form_cids (subst_list fns ns b) -> k ∈ form_cids b \/ k ∈ names_cids ns.
+Proof.
+  induction fns as [|fn fns IH]; intros [|n ns] b k; cbn; auto.
+  intros H. apply IH in H as [H|H].
+  - apply form_cids_subst in H as [H|H]; [by left|]. right. unfold names_cids. cbn. apply elem_of_app. by left.
+  - right. unfold names_cids. cbn. apply elem_of_app. by right.
+Qed.
+
+Lemma splits_of_cids ns1 : forall ns2 fns x,
+  x ∈ cfg_cids (splits_of ns1 ns2 fns) -> x ∈ names_cids (ns1 ++ ns2) \/ x ∈ names_cids fns.
+Proof.
+  induction ns1 as [|n1 ns1 IH]; intros [|n2 ns2] [|fn fns] x; cbn; try (intros H; by apply elem_of_nil in H).
+  unfold cfg_cids. rewrite flat_map_app, elem_of_app. intros [H|H].
+  - destruct (chan n1) as [z1|] eqn:E1; destruct (chan n2) as [z2|] eqn:E2; destruct (chan fn) as [z|] eqn:E; cbn in H;
+      try (by apply elem_of_nil in H).
+    unfold names_cids. cbn. rewrite flat_map_app. cbn.
+    assert (name_cids n1 = [z1]) as -> by (unfold name_cids; by rewrite E1).
+    assert (name_cids n2 = [z2]) as -> by (unfold name_cids; by rewrite E2).
+    assert (name_cids fn = [z]) as -> by (unfold name_cids; by rewrite E).
+    rewrite !elem_of_cons, elem_of_nil in H. rewrite !elem_of_app, !elem_of_cons. intuition.
+  - apply IH in H as [H|H]; [left|right]; unfold names_cids in *; cbn.
+    + rewrite flat_map_app in *. cbn. rewrite !elem_of_app in *. intuition.
+    + apply elem_of_app. by right.
+Qed.
+
+Section cids_all.
+Variable D : tenv.
+Variable F : list fundef.
+Variable teq : sty -> sty -> Prop.
+Hypothesis Hteq : teq_laws D teq.
+Hypothesis HF : funs_typed D F teq.
+
+Lemma prov_in Δ n t d : prov_ty teq Δ n t -> chan n = Some d -> is_Some (Δ !! d).
+Proof. intros (c0 & t' & Hc0 & Ht' & _) Hd. assert (c0 = d) by congruence. subst. eauto. Qed.
+
+Lemma alpha_cids_all Δ c x :
+  cfg_typed D F teq Δ c -> SplitCfg c -> x ∈ cfg_cids (α c) ->
+  is_Some (chans c !! x) \/
+  exists q pp m, procs c !! q = Some pp /\ length (pr_provs pp) = 2%nat /\ is_fwd (pr_body0 pp) = false /\
+                 x = q ++ [m] /\ (pr_next pp <= m)%nat.
+Proof.
+  intros Hc Hsc. unfold cfg_cids, α. rewrite elem_of_flat_map. intros (o & Ho & Hx).
+  apply elem_of_app in Ho as [Ho|Ho].
+  - unfold procs_objs in Ho. apply elem_of_flat_map in Ho as ([q pr] & Hq & Ho). cbn in Ho.
+    apply elem_of_map_to_list in Hq. destruct (ct_procs _ _ _ _ _ Hc q pr Hq) as (s & rs & _ & Hprov & Hty).
+    destruct (sc_procs c Hsc q pr Hq) as [[n Hpv]|(n1 & n2 & Hpv)].
+    + left. unfold proc_obj, pobj in Ho. rewrite Hpv in Ho. cbn in Ho.
+      destruct (chan n) as [a|] eqn:Hn; [|by apply elem_of_nil in Ho]. apply elem_of_list_singleton in Ho as ->.
+      apply (ct_dom _ _ _ _ _ Hc). rewrite Hpv in Hprov. apply Forall_cons_iff in Hprov as [Hp1 _].
+      apply obj_cids_obj in Hx as [->|Hx]; [exact (prov_in _ _ _ _ Hp1 Hn)|by eapply typed_cids].
+    + rewrite Hpv in Hprov. apply Forall_cons_iff in Hprov as [Hp1 Hprov]. apply Forall_cons_iff in Hprov as [Hp2 _].
+      destruct pr as [provs body nx]. cbn in Hpv, Hty. subst provs.
+      destruct (is_fwd body) eqn:Hfw.
+      * (* a pending split *) left. destruct body; try done. unfold proc_obj, pobj in Ho. cbn in Ho.
+        destruct droppable; [by apply elem_of_nil in Ho|].
+        destruct (chan n1) as [z1|] eqn:E1; [|by apply elem_of_nil in Ho].
+        destruct (chan n2) as [z2|] eqn:E2; [|by apply elem_of_nil in Ho].
+        destruct (chan from) as [b|] eqn:Eb; [|by apply elem_of_nil in Ho].
+        apply elem_of_list_singleton in Ho as ->. cbn in Hx. apply (ct_dom _ _ _ _ _ Hc).
+        rewrite !elem_of_cons, elem_of_nil in Hx. destruct Hx as [->|[->|[->|[]]]]; [exact (prov_in _ _ _ _ Hp1 E1)|exact (prov_in _ _ _ _ Hp2 E2)|].
+        eapply (proj1 (typed_names_mut D F teq Δ)); [exact Hty| |exact Eb]. cbn. apply elem_of_list_further, elem_of_list_here.
+      * (* read as its copies *)
+        destruct (chan n1) as [z1|] eqn:E1.
+        2:{ exfalso. destruct Hp1 as (c0 & ? & Hc0 & _). congruence. }
+        destruct (chan n2) as [z2|] eqn:E2.
+        2:{ exfalso. destruct Hp2 as (c0 & ? & Hc0 & _). congruence. }
+        destruct (dup_objs q n1 n2 z1 z2 body nx E1 E2 Hfw) as (e & He & _ & _ & _ & _ & _ & _ & Hobjs).
+        assert (proc_obj q (Proc [n1; n2] body nx) = spawn_objs (e_spawn e)) as Hpo.
+        { unfold proc_obj. cbn [pr_provs pr_body0]. rewrite He. by destruct body. }
+        rewrite Hpo, Hobjs in Ho.
+        assert (forall B ns, ns = col1 q nx (free_names body) \/ ns = col2 q nx (free_names body) ->
+                  x ∈ form_cids (subst_list (free_names body) ns B) -> B = body ->
+                  is_Some (chans c !! x) \/ exists m, x = q ++ [m] /\ (nx <= m)%nat) as Hbody.
+        { intros B ns Hns Hxb ->. apply form_cids_subst_list in Hxb as [Hxb|Hxb].
+          - left. apply (ct_dom _ _ _ _ _ Hc). by eapply typed_cids.
+          - right. apply (col_cids q nx (free_names body)). rewrite names_cids_app. apply elem_of_app. destruct Hns as [->| ->]; auto. }
+        assert (is_Some (chans c !! x) \/ exists m, x = q ++ [m] /\ (nx <= m)%nat) as [?|(m & -> & Hm)]; [|by left|right; exists q, (Proc [n1; n2] body nx), m; cbn; eauto 10].
+        apply elem_of_cons in Ho as [->|Ho]; [|apply elem_of_cons in Ho as [->|Ho]].
+        -- apply obj_cids_obj in Hx as [->|Hx]; [left; apply (ct_dom _ _ _ _ _ Hc); exact (prov_in _ _ _ _ Hp1 E1)|]. eapply (Hbody body (col1 q nx (free_names body))); [by left|exact Hx|done].
+        -- apply obj_cids_obj in Hx as [->|Hx]; [left; apply (ct_dom _ _ _ _ _ Hc); exact (prov_in _ _ _ _ Hp2 E2)|]. eapply (Hbody body (col2 q nx (free_names body))); [by right|exact Hx|done].
+        -- assert (x ∈ cfg_cids (splits_of (col1 q nx (free_names body)) (col2 q nx (free_names body)) (free_names body))) as Hxs.
+           { unfold cfg_cids. apply elem_of_flat_map. eauto. }
+           apply splits_of_cids in Hxs as [Hxs|Hxs]; [right; by apply (col_cids q nx (free_names body))|].
+           left. apply (ct_dom _ _ _ _ _ Hc). unfold names_cids in Hxs. apply elem_of_flat_map in Hxs as (fn & Hfn & Hxf).
+           apply elem_of_list_In in Hfn. destruct (free_names_closed D F teq Δ rs s body fn Hty Hfn) as [t Hct].
+           unfold name_cids in Hxf. destruct (chan fn) eqn:Ef; [|by apply elem_of_nil in Hxf].
+           apply elem_of_list_singleton in Hxf as ->. by eapply client_in.
+  - left. unfold chans_objs in Ho. apply elem_of_flat_map in Ho as ([k st] & Hk & Ho). cbn in Ho.
+    apply elem_of_map_to_list in Hk. unfold chan_obj in Ho. destruct (ch_buf st) as [m|] eqn:Hb; [|by apply elem_of_nil in Ho].
+    pose proof (ct_msgs _ _ _ _ _ Hc k st m Hk Hb) as Hmt.
+    assert (m_rule m = RFWD \/ m_rule m <> RFWD) as [Hr|Hr] by (destruct (m_rule m); auto; right; done).
+    + destruct (sc_msgs c Hsc k st m Hk Hb Hr) as [[n Hpv]|(n1 & n2 & Hpv)].
+      * destruct (msg_obj_typed_cids D teq Δ k m o x Hmt ltac:(eauto) Ho Hx) as [->|Hd]; [eauto|by apply (ct_dom _ _ _ _ _ Hc)].
+      * unfold msg_obj in Ho. rewrite Hr, Hpv in Ho. destruct Hmt as (T & HT & Hm). rewrite Hr in Hm. destruct Hm as (_ & _ & Hall).
+        rewrite Hpv in Hall. apply Forall_cons_iff in Hall as [Hp1 Hall]. apply Forall_cons_iff in Hall as [Hp2 _].
+        destruct (chan n1) as [z1|] eqn:E1; [|by apply elem_of_nil in Ho]. destruct (chan n2) as [z2|] eqn:E2; [|by apply elem_of_nil in Ho].
+        apply elem_of_list_singleton in Ho as ->. cbn in Hx. rewrite !elem_of_cons, elem_of_nil in Hx.
+        destruct Hx as [->|[->|[->|[]]]]; [apply (ct_dom _ _ _ _ _ Hc); exact (prov_in _ _ _ _ Hp1 E1)|apply (ct_dom _ _ _ _ _ Hc); exact (prov_in _ _ _ _ Hp2 E2)|eauto].
+    + destruct (msg_obj_typed_cids D teq Δ k m o x Hmt ltac:(done) Ho Hx) as [->|Hd]; [eauto|by apply (ct_dom _ _ _ _ _ Hc)].
+Qed.
+
+(* what the acting process is about to allocate is new for the whole abstraction *)
+Lemma fresh_all Δ c self p m' :
+  cfg_typed D F teq Δ c -> SplitCfg c -> ns_ok c -> procs c !! self = Some p ->
+  ((exists n, pr_provs p = [n]) \/ is_fwd (pr_body0 p) = true) ->
+  (pr_next p <= m')%nat -> (self ++ [m']) ∉ cfg_cids (α c).
+Proof.
+  intros Hc Hsc Hns Hp Hshape Hm Hin.
+  apply (alpha_cids_all Δ c _ Hc Hsc) in Hin as [Hin|(q & pp & m & Hq & Hlen & Hnf & E & _)].
+  - pose proof (ns_fresh_chan c self p m' Hns Hp Hm) as H0. destruct Hin as [x Hx].
+    pose proof (eq_trans (eq_sym Hx) H0) as E. discriminate E.
+  - apply app_inj_tail in E as [-> _]. assert (pp = p) by congruence. subst pp.
+    destruct Hshape as [[n Hpv]|Hf]; [rewrite Hpv in Hlen; done|congruence].
+Qed.
+End cids_all.
